@@ -185,6 +185,8 @@ def assign_alphabet(A, names):
         "r=c": {r: c},
         "c=a": {c: a},
         "@[sp+4]=0": {m.ExprMem(sp + m.ExprInt(4, 32), 32): m.ExprInt(0, 32)},
+        "zf=0": {zf: m.ExprInt(0, 1)},
+        "zf=1": {zf: m.ExprInt(1, 1)},
         "a=5": {a: m.ExprInt(5, 32)},
         "b=5": {b: m.ExprInt(5, 32)},
         "b=2": {b: m.ExprInt(2, 32)},
@@ -233,6 +235,9 @@ def cond_alphabet(A, names):
         "a==b": m.ExprOp("==", A.a, A.b),
         "a<u2": m.ExprOp("<u", A.a, m.ExprInt(2, 32)),
         "@[sp+4]": m.ExprMem(A.sp + m.ExprInt(4, 32), 32),
+        # literal conditions: one of the two edges is statically dead
+        "0": m.ExprInt(0, 32),
+        "1": m.ExprInt(1, 32),
     }
     return [(n, table[n]) for n in names]
 
